@@ -14,14 +14,18 @@ package main
 
 import (
 	"bytes"
+	"context"
 	"crypto/aes"
 	"crypto/sha1"
 	"encoding/binary"
 	"fmt"
+	"io"
+	"net"
 	"os"
 	"sort"
 	"strings"
 
+	"github.com/xelaj/mtproto/internal/mode"
 	"github.com/xelaj/mtproto/internal/mtproto/messages"
 	"github.com/xelaj/mtproto/internal/transport"
 	vc "verifcommon"
@@ -243,36 +247,73 @@ func implUDes(data []byte) string {
 	return "O:" + vc.Hex(le64(uint64(m.MsgID))) + "," + vc.Hex(m.Msg)
 }
 
-// the tail of transport.ReadMsg re-composed from its three calls (the framing part is C08's)
-func implDispatch(key, data []byte) string {
-	res := "E"
-	p, _ := vc.Catch(func() {
-		var msg messages.Common
-		var err error
-		kind := "00"
-		if transport.VerifIsPacketEncrypted(data) {
-			kind = "01"
-			var m *messages.Encrypted
-			m, err = messages.DeserializeEncrypted(append([]byte(nil), data...), key)
-			msg = m
-		} else {
-			var m *messages.Unencrypted
-			m, err = messages.DeserializeUnencrypted(append([]byte(nil), data...))
-			msg = m
-		}
+// The REAL transport.ReadMsg: a transport built with the exported constructor over a loopback TCP
+// connection in intermediate mode; the harness plays the server and writes one frame per case
+// (one connection per auth key, strictly one frame in flight).  So the dispatch on
+// isPacketEncrypted, both deserialisers and ReadMsg's own msg_id parity test are the tree's code.
+type rmSession struct {
+	srv net.Conn
+	t   transport.Transport
+}
+
+var rmSessions = map[string]*rmSession{}
+
+func fatal(err error, what string) {
+	if err != nil {
+		fmt.Fprintln(os.Stderr, "harness:", what, err)
+		os.Exit(3)
+	}
+}
+
+func readMsgSession(key []byte) *rmSession {
+	if s, ok := rmSessions[string(key)]; ok {
+		return s
+	}
+	ln, err := net.Listen("tcp", "127.0.0.1:0")
+	fatal(err, "listen on loopback")
+	ch := make(chan net.Conn, 1)
+	go func() {
+		c, err := ln.Accept()
 		if err != nil {
-			return
+			c = nil
 		}
-		mod := msg.GetMsgID() & 3
-		if mod != 1 && mod != 3 {
-			return
-		}
-		res = "O:" + kind + "," + vc.Hex(le64(uint64(msg.GetMsgID()))) + "," + vc.Hex(msg.GetMsg())
-	})
+		ch <- c
+	}()
+	t, err := transport.NewTransport(&informator{key: key}, transport.TCPConnConfig{Ctx: context.Background(), Host: ln.Addr().String()}, mode.Intermediate)
+	fatal(err, "transport.NewTransport")
+	srv := <-ch
+	if srv == nil {
+		fatal(fmt.Errorf("no connection"), "accept")
+	}
+	ann := make([]byte, 4)
+	_, err = io.ReadFull(srv, ann)
+	fatal(err, "mode announcement")
+	if !bytes.Equal(ann, []byte{0xee, 0xee, 0xee, 0xee}) {
+		fatal(fmt.Errorf("%x", ann), "unexpected mode announcement")
+	}
+	ln.Close()
+	s := &rmSession{srv, t}
+	rmSessions[string(key)] = s
+	return s
+}
+
+func implDispatch(key, data []byte) string {
+	s := readMsgSession(key)
+	_, err := s.srv.Write(cat(le32(uint32(len(data))), data))
+	fatal(err, "write frame")
+	var msg messages.Common
+	p, _ := vc.Catch(func() { msg, err = s.t.ReadMsg() })
 	if p {
 		return "P"
 	}
-	return res
+	if err != nil || msg == nil {
+		return "E"
+	}
+	kind := "00"
+	if _, ok := msg.(*messages.Encrypted); ok {
+		kind = "01"
+	}
+	return "O:" + kind + "," + vc.Hex(le64(uint64(msg.GetMsgID()))) + "," + vc.Hex(msg.GetMsg())
 }
 
 func implIsEnc(data []byte) string {
@@ -537,7 +578,8 @@ func genC03(tier string, g *gen) {
 		}
 		g.c03Small(r, n)
 	}
-	// dispatch of ReadMsg on valid packets of both kinds
+	g.parityCases(r, keys, map[bool]int{false: 1, true: 8}[thorough])
+	// the real ReadMsg on valid packets of both kinds
 	for i := 0; i < 12; i++ {
 		k := keys[i%len(keys)]
 		f := randFields(r, r.Intn(60), true)
@@ -549,6 +591,56 @@ func genC03(tier string, g *gen) {
 		}
 		id := g.id("disp")
 		g.emit(id, []string{"disp", id, vc.Hex(k), vc.Hex(data)}, implDispatch(k, data), "-", "ReadMsg dispatch")
+	}
+}
+
+// msg_ids over the whole int64 range: bit 63 clear / set (negative as int64, i.e. unixtime >= 2^31),
+// extreme and realistic upper halves, each with the four low-bit patterns 00 01 10 11, through
+// DeserializeEncrypted (valid packet sealed by the reference server), DeserializeUnencrypted and the
+// real transport.ReadMsg on both kinds of packet.  Oracle: a message iff the low bits are 01 or 11.
+func refUnencrypted(msgid uint64, body []byte) []byte {
+	return cat(make([]byte, 8), le64(msgid), le32(uint32(len(body))), body)
+}
+
+func (g *gen) parityCases(r *vc.Rng, keys [][]byte, reps int) {
+	for rep := 0; rep < reps; rep++ {
+		bases := []uint64{0, 1 << 63, ^uint64(0), 1<<63 - 1, 0x9e3779b9<<32 | r.U64()>>32, 0x65a1b2c3<<32 | r.U64()>>32,
+			r.U64() | 1<<63, r.U64() &^ (1 << 63), 0xffffffff<<32 | r.U64()>>32, 1<<63 | r.U64()>>40}
+		for bi, base := range bases {
+			for low := uint64(0); low < 4; low++ {
+				key := keys[(bi+rep)%len(keys)]
+				kh := vc.Hex(key)
+				f := randFields(r, r.Intn(40), true)
+				f.msgid = base&^3 | low
+				server := low&1 == 1
+				what := fmt.Sprintf("msg_id %016x (bit63=%d low bits %02b)", f.msgid, f.msgid>>63, low)
+				pkt := refSeal(false, key, f, padFor(r, len(f.body)))
+				un := refUnencrypted(f.msgid, f.body)
+				verdict := func(impl, want string) string {
+					switch {
+					case impl == "P":
+						return "bad:panic"
+					case server && impl != want:
+						return "bad:valid server message refused or altered"
+					case !server && impl != "E":
+						return "bad:client-parity msg_id accepted"
+					}
+					return "ok"
+				}
+				impl := implOpen(key, pkt)
+				id := g.id("parity")
+				g.emit(id, []string{"open", id, "1", kh, vc.Hex(pkt)}, impl, verdict(impl, f.show()+","+vc.Hex(pkt[8:24])), "DeserializeEncrypted, "+what)
+				impl = implUDes(un)
+				id = g.id("parity")
+				g.emit(id, []string{"udes", id, vc.Hex(un)}, impl, verdict(impl, "O:"+vc.Hex(le64(f.msgid))+","+vc.Hex(f.body)), "DeserializeUnencrypted, "+what)
+				impl = implDispatch(key, pkt)
+				id = g.id("parity")
+				g.emit(id, []string{"disp", id, kh, vc.Hex(pkt)}, impl, verdict(impl, "O:01,"+vc.Hex(le64(f.msgid))+","+vc.Hex(f.body)), "ReadMsg (encrypted), "+what)
+				impl = implDispatch(key, un)
+				id = g.id("parity")
+				g.emit(id, []string{"disp", id, kh, vc.Hex(un)}, impl, verdict(impl, "O:00,"+vc.Hex(le64(f.msgid))+","+vc.Hex(f.body)), "ReadMsg (unencrypted), "+what)
+			}
+		}
 	}
 }
 
@@ -755,6 +847,7 @@ func genC04(tier string, g *gen) {
 		id = g.id("udes")
 		g.emit(id, []string{"udes", id, vc.Hex(d)}, impl, noPanic(impl), "DeserializeUnencrypted on damaged data")
 	}
+	g.parityCases(r, keys, map[bool]int{false: 1, true: 8}[thorough])
 	// fault enumeration around valid packets; the model follows as far as its budget reaches
 	for i, n := range lens {
 		g.c04Base(r, keys[i%len(keys)], n, tier, &budget)
